@@ -31,12 +31,16 @@ CONSTANTS
     BuggyDup,   \* tbls: TRUE = implementation-shaped scan counts duplicates (the pinned tree, finding 6)
     NSSet,      \* masks: numbers of signers
     MaxOps,     \* masks: operations between New and the final step, for <= 4 signers
-    MaxOpsBig   \* masks: the same for more than 4 signers (argument menu instead of all subsets)
+    MaxOpsBig,  \* masks: the same for more than 4 signers (argument menu instead of all subsets)
+    MaxProbes   \* masks: aggregations (Probe) that may be interleaved with the calls of one behaviour
 
 VARIABLES cfg, list, mk, nops, phase, out, hist, md
 vars == <<cfg, list, mk, nops, phase, out, hist, md>>
 
-(* md = [mode |-> which machine this behaviour runs, ns |-> number of signers of its masks] *)
+(* md = [mode |-> which machine this behaviour runs, ns |-> number of signers of its masks,      *)
+(*       np |-> aggregations interleaved so far, since |-> objects aggregated over since their   *)
+(*       last mutating call]                                                                      *)
+MD(m, n) == [mode |-> m, ns |-> n, np |-> 0, since |-> {}]
 Mode == md.mode
 NS   == md.ns
 
@@ -58,7 +62,7 @@ BlsVerdict(tm, k, m) ==
 
 BlsCase(tm, k, m) ==
     /\ phase = "start" /\ "bls" \in Modes
-    /\ md' = [mode |-> "bls", ns |-> 1]
+    /\ md' = MD("bls", 1)
     /\ out' = BlsVerdict(tm, k, m)
     /\ phase' = "done"
     /\ hist' = <<[act |-> "Sign"], [act |-> "Tamper", m |-> tm, effect |-> BlsEffect(tm)],
@@ -104,7 +108,7 @@ RecoverImpl(l, t, buggy) ==
 
 Deal(nn, tt) ==
     /\ phase = "start" /\ "tbls" \in Modes
-    /\ md' = [mode |-> "tbls", ns |-> 1]
+    /\ md' = MD("tbls", 1)
     /\ cfg' = [n |-> nn, t |-> tt]
     /\ list' = <<>>
     /\ phase' = "collect"
@@ -164,6 +168,9 @@ Menu == IF NS <= 4 THEN SUBSET Idx
         ELSE {{}, {0}, {NS - 1}, Idx, {i \in Idx : i < 8}, {i \in Idx : i >= 8}, {i \in Idx : i % 2 = 0},
               {7} \cap Idx, {1, 8} \cap Idx}
 OpsBound == IF NS <= 4 THEN MaxOps ELSE MaxOpsBig
+(* after an interleaved aggregation the generator continues with a reduced argument menu *)
+SmallMenu == IF NS <= 4 THEN {{}, {0}, {1, 2} \cap Idx, Idx} ELSE Menu
+CurMenu == IF md.np > 0 THEN SmallMenu ELSE Menu
 
 (* MaskStepN(n, op, b): result of one call on a mask over n signers whose bitset is b.            *)
 (* op = [o |-> "SetBit", i |-> index (n = one past the end, n+1 stands for -1), en |-> BOOLEAN]   *)
@@ -199,7 +206,7 @@ NoMask == [live |-> FALSE, bits |-> {}]
 
 New(kind, ns, ctor, i) ==
     /\ phase = "start" /\ kind \in Modes
-    /\ md' = [mode |-> kind, ns |-> ns]
+    /\ md' = MD(kind, ns)
     /\ LET ok   == ctor # "unknown"
            b    == IF ctor = "own" THEN {i} ELSE {}
            m    == [A |-> [live |-> ok, bits |-> b], B |-> NoMask]
@@ -216,7 +223,8 @@ Apply(o, op) ==
        IN /\ mk' = m
           /\ hist' = Append(hist, [act |-> op.o, obj |-> o, op |-> op, ret |-> r.ret, post |-> PostOf(m)])
     /\ nops' = nops + 1
-    /\ UNCHANGED <<cfg, list, phase, out, md>>
+    /\ md' = [md EXCEPT !.since = @ \ {o}]
+    /\ UNCHANGED <<cfg, list, phase, out>>
 
 Clone ==
     /\ Mode = "bdn" /\ phase = "ops" /\ Live("A") /\ ~Live("B") /\ nops < OpsBound
@@ -224,12 +232,12 @@ Clone ==
        IN /\ mk' = m
           /\ hist' = Append(hist, [act |-> "Clone", obj |-> "A", ret |-> "ok", post |-> PostOf(m)])
     /\ nops' = nops + 1
-    /\ UNCHANGED <<cfg, list, phase, out, md>>
+    /\ UNCHANGED <<cfg, list, phase, out, md>>       \* the clone has not been aggregated over itself: "B" is not in md.since
 
 SetBitOps  == [o : {"SetBit"}, i : 0..(IF Mode = "bdn" THEN NS + 1 ELSE NS), en : BOOLEAN]
-SetMaskOps == [o : {"SetMask"}, bs : Menu, lenok : {TRUE}] \cup {[o |-> "SetMask", bs |-> {}, lenok |-> FALSE]}
+SetMaskOps == [o : {"SetMask"}, bs : CurMenu, lenok : {TRUE}] \cup {[o |-> "SetMask", bs |-> {}, lenok |-> FALSE]}
 MergeOps   == IF Mode = "bdn"
-              THEN [o : {"Merge"}, bs : Menu, lenok : {TRUE}] \cup {[o |-> "Merge", bs |-> {}, lenok |-> FALSE]}
+              THEN [o : {"Merge"}, bs : CurMenu, lenok : {TRUE}] \cup {[o |-> "Merge", bs |-> {}, lenok |-> FALSE]}
               ELSE {}
 MaskOps == SetBitOps \cup SetMaskOps \cup MergeOps
 
@@ -248,8 +256,19 @@ BdnExp(b) ==
      drop |-> IF b = {} THEN "na" ELSE BdnVerdict(b, "drop", "same"),
      keyOfBits |-> TRUE]       \* AggregatePublicKeys is the same function of the bitset however the object was built
 
-Agg(o) ==
+(* Aggregation is an action of the mask program, not only its end: Probe(o) aggregates over the   *)
+(* CURRENT bitset of o (key, and on a quota signatures + Verify) and the program goes on; the key  *)
+(* it must report is the function BdnExp of the bitset at that moment, whatever was aggregated,    *)
+(* changed or cloned before.                                                                        *)
+Probe(o) ==
     /\ Mode = "bdn" /\ phase = "ops" /\ Live(o)
+    /\ md.np < MaxProbes /\ o \notin md.since
+    /\ md' = [md EXCEPT !.np = @ + 1, !.since = @ \cup {o}]
+    /\ hist' = Append(hist, [act |-> "Probe", obj |-> o, bits |-> mk[o].bits, exp |-> BdnExp(mk[o].bits)])
+    /\ UNCHANGED <<cfg, list, mk, nops, phase, out>>
+
+Agg(o) ==
+    /\ Mode = "bdn" /\ phase = "ops" /\ Live(o) /\ o \notin md.since
     /\ out' = BdnVerdict(mk[o].bits, "same", "same")
     /\ phase' = "done"
     /\ hist' = Append(hist, [act |-> "Agg", obj |-> o, bits |-> mk[o].bits, exp |-> BdnExp(mk[o].bits)])
@@ -297,8 +316,18 @@ CosiPolsFor(tm, b) ==
 CosiExp(b) == UNION {{[tam |-> tm, pol |-> pol, exp |-> CosiVerdict(b, tm, pol)] : pol \in CosiPolsFor(tm, b)} :
                         tm \in {x \in CosiTampers : CosiApplicable(x, b)}}
 
-SignVerify ==
+(* the same interleaving for CoSi: a collective signature made with the mask object as it is now *)
+CosiProbeExp(b) == {[tam |-> tm, pol |-> "thr-count", exp |-> CosiVerdict(b, tm, "thr-count")] : tm \in {"none", "msg", "mask-drop"}}
+
+CosiProbe ==
     /\ Mode = "cosi" /\ phase = "ops" /\ Live("A") /\ mk["A"].bits # {}
+    /\ md.np < MaxProbes /\ "A" \notin md.since
+    /\ md' = [md EXCEPT !.np = @ + 1, !.since = @ \cup {"A"}]
+    /\ hist' = Append(hist, [act |-> "SignVerify", final |-> FALSE, obj |-> "A", bits |-> mk["A"].bits, exp |-> CosiProbeExp(mk["A"].bits)])
+    /\ UNCHANGED <<cfg, list, mk, nops, phase, out>>
+
+SignVerify ==
+    /\ Mode = "cosi" /\ phase = "ops" /\ Live("A") /\ mk["A"].bits # {} /\ "A" \notin md.since
     /\ out' = CosiVerdict(mk["A"].bits, "none", "nil")
     /\ phase' = "done"
     /\ hist' = Append(hist, [act |-> "SignVerify", obj |-> "A", bits |-> mk["A"].bits, exp |-> CosiExp(mk["A"].bits)])
@@ -330,6 +359,8 @@ NextMasks ==
             \/ New(kind, ns, "unknown", 0))
     \/ (phase = "ops" /\ \E o \in Objs, op \in MaskOps : Apply(o, op))
     \/ (phase = "ops" /\ Clone)
+    \/ (phase = "ops" /\ \E o \in Objs : Probe(o))
+    \/ (phase = "ops" /\ CosiProbe)
     \/ (phase = "ops" /\ \E o \in Objs : Agg(o))
     \/ (phase = "ops" /\ SignVerify)
 
@@ -337,7 +368,7 @@ NextMasks ==
 Init ==
     /\ cfg = [n |-> 2, t |-> 2] /\ list = <<>>
     /\ mk = [o \in Objs |-> NoMask]
-    /\ md = [mode |-> "none", ns |-> 1]
+    /\ md = MD("none", 1)
     /\ nops = 0 /\ phase = "start" /\ out = "none" /\ hist = <<>>
 
 Next == (phase = "start" /\ NextBls) \/ NextTbls \/ NextMasks
